@@ -294,3 +294,17 @@ pub fn check(tier: Tier, threads: usize) -> CheckOutcome {
         machinery_error: mach,
     }
 }
+
+pub fn replay(v: &serde_json::Value) -> Result<Option<String>, String> {
+    let ss = streams();
+    let si = ss.iter().position(|(n, _)| Some(n.as_str()) == v["stream"].as_str()).ok_or("unknown stream")?;
+    let off = v["offset"].as_u64().unwrap_or(0) as usize;
+    let fault = FAULTS.iter().copied().find(|f| Some(format!("{:?}", f).as_str()) == v["fault"].as_str()).ok_or("unknown fault")?;
+    let refs = reference(&ss[si].1);
+    let a = run_case(&ss[si].0, &ss[si].1, &refs, off, fault)?.viol;
+    let b = run_case(&ss[si].0, &ss[si].1, &refs, off, fault)?.viol;
+    if a != b {
+        return Err("two replays of the same scenario differ".into());
+    }
+    Ok(a.map(|(s, w)| format!("{}: {}", s, w)))
+}
